@@ -52,8 +52,8 @@ type GM struct {
 }
 
 type RouteCfg struct {
-	N       int `json:"n"`        // number of route-specific middleware at creation
-	Updated int `json:"updated"`  // -1: never updated; otherwise number of route middleware after Update
+	N       int `json:"n"`       // number of route-specific middleware at creation
+	Updated int `json:"updated"` // -1: never updated; otherwise number of route middleware after Update
 }
 
 type Case struct {
@@ -187,6 +187,14 @@ func checkCase(c *Case) (err error) {
 	if _, err := f.Handle("GET", "/redir/", endpoint("redir", 200), fox.WithRedirectTrailingSlash(true)); err != nil {
 		return fmt.Errorf("%s%v", desc, err)
 	}
+	// routes served by ignoring a trailing slash (added and removed) are route handlers like any other
+	ignOpts := append(routeOpts("i", 0, 2), fox.WithIgnoreTrailingSlash(true))
+	if _, err := f.Handle("GET", "/ign/{p}", endpoint("ign", 200), ignOpts...); err != nil {
+		return fmt.Errorf("%s%v", desc, err)
+	}
+	if _, err := f.Handle("GET", "/igs/{p}/", endpoint("igs", 200), append(routeOpts("j", 1, 1), fox.WithIgnoreTrailingSlash(true))...); err != nil {
+		return fmt.Errorf("%s%v", desc, err)
+	}
 	for i, rc := range c.Routes {
 		if rc.Updated >= 0 {
 			if _, err := f.Update("GET", fmt.Sprintf("/r%d/{p}", i), endpoint(fmt.Sprintf("r%d'", i), 200), routeOpts("u", i, rc.Updated)...); err != nil {
@@ -220,6 +228,18 @@ func checkCase(c *Case) (err error) {
 		cc.Close()
 		if err := expectTrace(*tr, append(append([]string{}, rids...), hid)); err != nil {
 			return fmt.Errorf("%sroute %d (%+v) Route.HandleMiddleware: %w", desc, i, rc, err)
+		}
+	}
+	for _, tc := range []struct {
+		path, end string
+		rids      []string
+	}{
+		{"/ign/x", "H:ign", ids("i", 0, 2)}, {"/ign/x/", "H:ign", ids("i", 0, 2)},
+		{"/igs/x/", "H:igs", ids("j", 1, 1)}, {"/igs/x", "H:igs", ids("j", 1, 1)},
+	} {
+		want := append(append(c.globalsFor(fox.RouteHandler), tc.rids...), tc.end)
+		if err := expectTrace(serve(f, "GET", tc.path), want); err != nil {
+			return fmt.Errorf("%srequest %s (route with ignored trailing slash): %w", desc, tc.path, err)
 		}
 	}
 	special := []struct {
@@ -325,9 +345,9 @@ func TestExhaustiveMasks(t *testing.T) {
 // ---- concurrent creation of routes with route-specific middleware (run with -race) ----
 
 type ConcCase struct {
-	Globals int `json:"globals"`
-	Workers int `json:"workers"`
-	PerW    int `json:"routes_per_worker"`
+	Globals int  `json:"globals"`
+	Workers int  `json:"workers"`
+	PerW    int  `json:"routes_per_worker"`
 	Txn     bool `json:"via_newroute_only"`
 }
 
